@@ -1,0 +1,5 @@
+//go:build !verif
+
+package object
+
+func verifEnv(op string, env, outer *Env, key string, val Object, ok bool) {}
